@@ -13,9 +13,8 @@
    strings.  Addresses are numbers (32 / 128 bit).
 
    [flags]: each flag set to [true] re-introduces one defect that was found with this check.  [repaired] (all false)
-   is what /repo HEAD does for everything that has been fixed there AND drops a message whose sequence number is not
-   above the last one seen; [head] is /repo HEAD exactly: [repaired] plus the one finding that is still open
-   (f_stale: the receiver never compares sequence numbers).  The other flags are kept only for the historical
+   is what /repo HEAD does for everything that has been fixed there, with the open findings repaired; [head] is /repo
+   HEAD exactly: [repaired] plus the findings that are still open (f_stale, f_lagdel, f_race).  The other flags are kept only for the historical
    _refuted witnesses in Properties.v; the correspondence check runs [repaired] and [head] only. *)
 From OV Require Import Common.Base.
 
@@ -26,14 +25,19 @@ Record flags := mkflags {
   f_drop  : bool;   (* fixed in 88d6de6: the receiver never released what an earlier checkpoint of the session reserved *)
   f_bulk  : bool;   (* fixed in 43d3a11: bulk replay of the backlog sent checkpoints without their action *)
   f_relall : bool;  (* fixed in 88d6de6: release by address from every pool / first containing pool *)
-  f_window : bool   (* fixed in cd04fe0: bulk sync replayed the retained backlog window even when it did not reach
+  f_window : bool;  (* fixed in cd04fe0: bulk sync replayed the retained backlog window even when it did not reach
                        back to what the standby already has *)
+  f_lagdel : bool;  (* OPEN (bulk-sync-cannot-convey-missed-delete): a bulk sync to a standby that has state never
+                       removes a session whose DELETE the standby missed (pages carry bare checkpoints; the
+                       snapshot has no "replace all" meaning) *)
+  f_race : bool     (* OPEN (sender-seq-push-not-atomic): HandleEvent assigns the sequence number, pushes to the
+                       backlog and enqueues as separate steps of concurrently running handlers *)
 }.
-Definition repaired : flags := mkflags false false false false false false.
+Definition repaired : flags := mkflags false false false false false false false false.
 (* /repo before the C11 fixes (bb5ec1b, 88d6de6, 43d3a11, cd04fe0) *)
-Definition defective : flags := mkflags true true true true true true.
-(* /repo HEAD (cd04fe0): everything fixed except the sequence comparison in the receiver *)
-Definition head : flags := mkflags false true false false false false.
+Definition defective : flags := mkflags true true true true true true true true.
+(* /repo HEAD: everything fixed except the three findings marked OPEN above *)
+Definition head : flags := mkflags false true false false false false true true.
 
 (* ---------- association lists ---------- *)
 Section Assoc.
@@ -487,9 +491,26 @@ Fixpoint iter_n {A} (n : nat) (f : A -> A) (x : A) : A := match n with O => x | 
    sequence number *)
 Definition snapshot_cps (y : sys) (srg : N) : list checkpoint :=
   map (fun ks => s2c (snd ks)) (filter (fun ks => N.eqb (s_srg (snd ks)) srg) (y_live y)).
+(* a snapshot means "these are all the sessions of the SRG": the repaired standby first drops (and releases) every
+   stored session of the SRG that is not in it; /repo HEAD (f_lagdel) keeps them *)
+Definition purge (fl : flags) (rc : receiver) (srg : N) (cps : list checkpoint) : receiver :=
+  fold_left (fun r kc =>
+               if N.eqb (c_srg (snd kc)) srg && negb (existsb (fun c => keyeqb (fst kc) (cp_key c)) cps)
+               then recv_delete fl r (snd kc) else r)
+            (rc_store rc) rc.
 Definition recv_snapshot (fl : flags) (rc : receiver) (srg seq : N) (cps : list checkpoint) : receiver :=
-  let rc1 := fold_left (recv_update fl) cps rc in
+  let rc0 := if f_lagdel fl then rc else purge fl rc srg cps in
+  let rc1 := fold_left (recv_update fl) cps rc0 in
   if N.ltb 0 seq then mkrecv (aset N.eqb srg seq (rc_last rc1)) (rc_store rc1) (rc_reg rc1) else rc1.
+
+(* a DELETE behind the standby's position that is the last word on its session: a page of bare checkpoints cannot
+   convey it *)
+Fixpoint pending_delete (last : N) (l : list req) : bool :=
+  match l with
+  | [] => false
+  | q :: r => (N.ltb last (q_seq q) && negb (has_later (cp_key (q_cp q)) r)
+               && match q_act q with ADelete => true | _ => false end) || pending_delete last r
+  end.
 
 Definition bulk_op (fl : flags) (churn : sys -> sys) (y : sys) (srg : N) (k pagesz : nat) : sys :=
   match aget N.eqb srg (y_sender y) with
@@ -497,23 +518,25 @@ Definition bulk_op (fl : flags) (churn : sys -> sys) (y : sys) (srg : N) (k page
       match oldest_seq b, newest_seq b with
       | Ok os, Ok ns =>
           if N.eqb os 0 || N.eqb ns 0 then y else
-          if f_window fl || N.leb os (last_of (y_recv y) srg + 1) then
-            (* the window reaches back to what the standby has: replay it *)
-            match range fl b (Z.of_N os) (Z.of_N ns) with
-            | Ok l => let (qs, p) := somes l in
-                      if p then mksys (y_sender y) (y_recv y) (y_sent y) (y_next y) (y_live y) (S (y_panics y))
-                      else
-                        let y1 := iter_n (bulk_pages fl qs pagesz * k) churn y in
-                        mksys (y_sender y1) (recv_bulk fl (y_recv y1) srg qs) (y_sent y1)
-                              (aset N.eqb srg (Nat.max (next_of y1 srg) (N.to_nat ns)) (y_next y1)) (y_live y1) (y_panics y1)
-            | _ => mksys (y_sender y) (y_recv y) (y_sent y) (y_next y) (y_live y) (S (y_panics y))
-            end
-          else
-            (* the standby is behind the window: full snapshot of the live sessions *)
-            let cps := snapshot_cps y srg in
-            let y1 := iter_n ((length cps / pagesz + 1) * k) churn y in
-            mksys (y_sender y1) (recv_snapshot fl (y_recv y1) srg seq cps) (y_sent y1)
-                  (aset N.eqb srg (Nat.max (next_of y1 srg) (N.to_nat seq)) (y_next y1)) (y_live y1) (y_panics y1)
+          match range fl b (Z.of_N os) (Z.of_N ns) with
+          | Ok l =>
+              let (qs, p) := somes l in
+              if p then mksys (y_sender y) (y_recv y) (y_sent y) (y_next y) (y_live y) (S (y_panics y)) else
+              let last := last_of (y_recv y) srg in
+              if f_window fl || (N.leb os (last + 1) && (f_lagdel fl || negb (pending_delete last qs))) then
+                (* the window reaches back to what the standby has (and, repaired, holds no DELETE the standby still
+                   needs): replay it *)
+                let y1 := iter_n (bulk_pages fl qs pagesz * k) churn y in
+                mksys (y_sender y1) (recv_bulk fl (y_recv y1) srg qs) (y_sent y1)
+                      (aset N.eqb srg (Nat.max (next_of y1 srg) (N.to_nat ns)) (y_next y1)) (y_live y1) (y_panics y1)
+              else
+                (* otherwise: full snapshot of the live sessions *)
+                let cps := snapshot_cps y srg in
+                let y1 := iter_n ((length cps / pagesz + 1) * k) churn y in
+                mksys (y_sender y1) (recv_snapshot fl (y_recv y1) srg seq cps) (y_sent y1)
+                      (aset N.eqb srg (Nat.max (next_of y1 srg) (N.to_nat seq)) (y_next y1)) (y_live y1) (y_panics y1)
+          | _ => mksys (y_sender y) (y_recv y) (y_sent y) (y_next y) (y_live y) (S (y_panics y))
+          end
       | _, _ => mksys (y_sender y) (y_recv y) (y_sent y) (y_next y) (y_live y) (S (y_panics y))
       end
   | None => y
